@@ -192,6 +192,10 @@ class EditUser(MethodView):
         """
         Modifies a user
         """
+        if jwt_current_user.pk == User.get_guest_user().pk:
+            # the guest account is shared by all anonymous visitors, who
+            # can obtain an access token for it without logging in
+            return jsonify_no_content(401)
         user: User | None = User.get(pk=upk)
         if user is None:
             return jsonify_no_content(404)
